@@ -267,7 +267,7 @@ func TestC10Sim(t *testing.T) {
 // C12: retention removes only finished jobs, oldest first, with their logs.
 func TestC12(t *testing.T) {
 	cfg := &Cfg{Prop: "C12", MaxPipelines: 3, MaxTasks: 2, DelayPct: 25, ReplacePct: 10, Retention: true, DiskStore: true, Logs: true, Preload: true,
-		LimitChoices: []int{-1, -1, 3}, Weights: map[string]int{"schedule": 30, "cancel": 8, "finish": 26, "timer": 6, "hold": 2, "release": 3, "reload": 5, "saveRetention": 18},
+		LimitChoices: []int{-1, -1, 3}, Weights: map[string]int{"schedule": 30, "cancel": 8, "finish": 26, "timer": 6, "hold": 2, "release": 3, "reload": 5, "saveRetention": 18, "failedSave": 4},
 		ReloadKinds: []string{"removePipeline", "removePipeline", "addPipeline", "retention", "retention", "conc"},
 		Armed:       map[string]bool{"C12": true}}
 	runHistories(t, histOpts{cfg: cfg, failPct: 20,
